@@ -95,6 +95,19 @@ def _install(plan, modules):
         if plan.mode == "count" or plan.n != plan.k:
             return
         plan.fired = True
+        if plan.mode == "kill-after-open":
+            # the truncating/creating open takes effect, then the process dies before a single byte is written -
+            # whatever API would have written the data (write(), sendfile, copyfile ...)
+            if kind == "open-write":
+                mode = args[1] if len(args) > 1 else None
+                flags = args[2] if len(args) > 2 else 0
+                trunc = (isinstance(mode, str) and "w" in mode) or (isinstance(flags, int) and flags & os.O_TRUNC)
+                try:
+                    fd = os.open(path, os.O_WRONLY | os.O_CREAT | (os.O_TRUNC if trunc else 0), 0o600)
+                    os.close(fd)
+                except OSError:
+                    pass
+            os._exit(137)
         if plan.mode in ("kill", "partial"):
             os._exit(137)
         raise OSError(getattr(_errno, plan.err), os.strerror(getattr(_errno, plan.err)))
